@@ -232,70 +232,6 @@ open Nstd.Variant
 
 /-! ### slots -/
 
-theorem cnt_set (cs : List Cell) (i : Nat) (c ci : Cell) (x : Nat) (hi : cs[i]? = some ci) :
-    cntCells (cs.set i c) x + cellCnt ci x = cntCells cs x + cellCnt c x := by
-  induction cs generalizing i with
-  | nil => simp at hi
-  | cons d t ih =>
-    cases i with
-    | zero =>
-      simp at hi; subst hi
-      simp only [List.set_cons_zero, cntCells_cons]; omega
-    | succ n =>
-      simp at hi
-      simp only [List.set_cons_succ, cntCells_cons]
-      have := ih n hi; omega
-
-theorem cnt_mapPut (m : List (Str × Cell)) (k : Str) (c ci : Cell) (x : Nat) (hi : mapGet m k = some ci) :
-    cntCells ((mapPut m k c).map (·.2)) x + cellCnt ci x = cntCells (m.map (·.2)) x + cellCnt c x := by
-  induction m with
-  | nil => simp [mapGet] at hi
-  | cons q t ih =>
-    obtain ⟨k', d⟩ := q
-    simp only [mapGet] at hi
-    by_cases hk : (k' == k) = true
-    · simp only [hk, if_true, Option.some.injEq] at hi; subst hi
-      simp only [mapPut, hk, if_true, List.map_cons, cntCells_cons]; omega
-    · have hk' : (k' == k) = false := by simpa using hk
-      simp only [hk', Bool.false_eq_true, if_false] at hi
-      simp only [mapPut, hk', Bool.false_eq_true, if_false, List.map_cons, cntCells_cons]
-      have := ih hi; omega
-
-/-- storing `c` into the slot that held `ci` -/
-theorem cnt_setCell (p : Pay) (st : Step) (c ci : Cell) (x : Nat) (hi : p.getCell st = some ci) :
-    cntCells (p.setCell st c).cells x + cellCnt ci x = cntCells p.cells x + cellCnt c x := by
-  cases p <;> cases st <;> simp [Pay.getCell] at hi
-  · exact cnt_set _ _ c ci x hi
-  · exact cnt_set _ _ c ci x hi
-  · exact cnt_mapPut _ _ c ci x hi
-
-theorem mem_cells_of_getCell (p : Pay) (st : Step) (ci : Cell) (hi : p.getCell st = some ci) : ci ∈ p.cells := by
-  cases p <;> cases st <;> simp [Pay.getCell] at hi
-  · exact List.mem_of_getElem? hi
-  · exact List.mem_of_getElem? hi
-  · rename_i m k
-    simp only [Pay.cells]
-    induction m with
-    | nil => simp [mapGet] at hi
-    | cons q t iht =>
-      obtain ⟨k', d⟩ := q
-      simp only [mapGet] at hi
-      by_cases hk : (k' == k) = true
-      · simp [hk] at hi; subst hi; simp
-      · have : (k' == k) = false := by simpa using hk
-        simp only [this, Bool.false_eq_true, if_false] at hi
-        simp only [List.map_cons, List.mem_cons]; exact Or.inr (iht hi)
-
-theorem cellCnt_le_of_mem (cs : List Cell) (c : Cell) (x : Nat) (h : c ∈ cs) : cellCnt c x ≤ cntCells cs x := by
-  induction cs with
-  | nil => cases h
-  | cons d t ih =>
-    rw [cntCells_cons]
-    simp only [List.mem_cons] at h
-    rcases h with rfl | h
-    · omega
-    · have := ih h; omega
-
 /-! ### sources, accessor, leaves, walk -/
 
 theorem srcCopy_keeps (rd : Nat → Cell) (h : Heap) (hb : Bounded h) (src : Src) (x : Nat) (hx : x < h.next)
@@ -384,13 +320,12 @@ theorem leafOp_keeps (f : Nat) (ds : DblSem) (rd : Nat → Cell) (h : Heap) (c :
     (x : Nat) (r : leafOp f ds rd h c lf = some (h', c')) (hsup : LeafSupS lf) (hb : Bounded h) (hx : x < h.next)
     (hc : cellCnt c x = 0) (hsrc : ∀ w ∈ lf.vars, cellCnt (rd w) x = 0) (hs : stored h.heap h.next x = 0) :
     Keeps h h' x ∧ cellCnt c' x = 0 := by
-  -- the three sequence insertions share one argument
-  have push : ∀ (kind : Nat) (src : Src) (F : Heap → Pay → Option (Heap × Pay)),
-      (∀ w ∈ src.vars, cellCnt (rd w) x = 0) →
-      (∀ s1 p s2 p', F s1 p = some (s2, p') → s2 = (srcCopy rd s1 src).1 ∧
-        ∀ y, cntCells p'.cells y = cntCells p.cells y + cellCnt (srcCopy rd s1 src).2 y) →
+  -- all payload edits through the accessor share one argument
+  have edit : ∀ (kind : Nat) (F : Heap → Pay → Option (Heap × Pay × List Cell)),
+      (∀ s1 p s2 p' dead, Bounded s1 → x < s1.next → stored s1.heap s1.next x = 0 → F s1 p = some (s2, p', dead) →
+        Keeps s1 s2 x ∧ cntCells p'.cells x ≤ cntCells p.cells x ∧ cntCells dead x ≤ cntCells p.cells x) →
       withAccess f ds h c kind F = some (h', c') → Keeps h h' x ∧ cellCnt c' x = 0 := by
-    intro kind src F hsv hF r
+    intro kind F hF r
     unfold withAccess at r
     cases ha : accessCell f ds h c kind with
     | none => rw [ha] at r; cases r
@@ -412,17 +347,24 @@ theorem leafOp_keeps (f : Nat) (ds : DblSem) (rd : Nat → Cell) (h : Heap) (c :
           cases hf : F h1 blk.pay with
           | none => rw [hf] at r; cases r
           | some q2 =>
-            obtain ⟨s2, p'⟩ := q2
+            obtain ⟨s2, p', dead⟩ := q2
             rw [hf] at r
-            simp only [Option.some.injEq, Prod.mk.injEq] at r
-            obtain ⟨e1, e2⟩ := r
-            subst e1 e2
-            obtain ⟨es, hcnt⟩ := hF h1 blk.pay s2 p' hf
-            subst es
-            obtain ⟨k2, c2⟩ := srcCopy_keeps rd h1 k1.bnd src x (by have := k1.mono; omega) hsv k1.unst
+            simp only at r
+            obtain ⟨k2, hp', hdead⟩ := hF h1 blk.pay s2 p' dead k1.bnd (by have := k1.mono; omega) k1.unst hf
             have hold := cnt_le_stored h1 k1.bnd b blk hbb x
-            have k3 := setPay_keeps _ k2.bnd b p' x hbx (by rw [hcnt x]; have := k1.unst; omega) k2.unst
-            exact ⟨(k1.trans k2).trans k3, cb⟩
+            have k3 := setPay_keeps s2 k2.bnd b p' x hbx (by have := k1.unst; omega) k2.unst
+            cases hr : releaseAll f (setPay s2 b p') dead with
+            | none => rw [hr] at r; cases r
+            | some h4 =>
+              rw [hr] at r
+              simp only [Option.map, Option.some.injEq, Prod.mk.injEq] at r
+              obtain ⟨e1, e2⟩ := r
+              subst e1 e2
+              have k4 := releaseAll_keeps f dead _ h4 x hr k3.bnd (by have := k1.unst; omega) k3.unst
+              exact ⟨((k1.trans k2).trans k3).trans k4, cb⟩
+  have srcSpec : ∀ (src : Src), (∀ w ∈ src.vars, cellCnt (rd w) x = 0) → ∀ s1, Bounded s1 → x < s1.next →
+      stored s1.heap s1.next x = 0 → Keeps s1 (srcCopy rd s1 src).1 x ∧ cellCnt (srcCopy rd s1 src).2 x = 0 :=
+    fun src hsv s1 b1 x1 st1 => srcCopy_keeps rd s1 b1 src x x1 hsv st1
   cases lf with
   | assign src =>
     simp only [leafOp] at r
@@ -469,32 +411,105 @@ theorem leafOp_keeps (f : Nat) (ds : DblSem) (rd : Nat → Cell) (h : Heap) (c :
   | touch k => exact accessCell_keeps f ds h c k h' c' x r hb hx hc hs
   | lapp src =>
     simp only [leafOp] at r
-    refine push 8 src _ hsrc ?_ r
-    intro s1 p s2 p' hF
+    refine edit 8 _ ?_ r
+    intro s1 p s2 p' dead b1 x1 st1 hF
     cases p <;> simp at hF
-    obtain ⟨e1, e2⟩ := hF
-    subst e1 e2
-    exact ⟨rfl, fun y => by simp [Pay.cells, cntCells_append, cntCells_cons, cntCells_nil]⟩
+    obtain ⟨e1, e2, e3⟩ := hF
+    subst e1 e2 e3
+    obtain ⟨k, ck⟩ := srcSpec src hsrc s1 b1 x1 st1
+    exact ⟨k, by simp [Pay.cells, cntCells_append, cntCells_cons, cntCells_nil, ck], by simp [cntCells_nil]⟩
   | lpre src =>
     simp only [leafOp] at r
-    refine push 8 src _ hsrc ?_ r
-    intro s1 p s2 p' hF
+    refine edit 8 _ ?_ r
+    intro s1 p s2 p' dead b1 x1 st1 hF
     cases p <;> simp at hF
-    obtain ⟨e1, e2⟩ := hF
-    subst e1 e2
-    exact ⟨rfl, fun y => by simp [Pay.cells, cntCells_cons]; omega⟩
+    obtain ⟨e1, e2, e3⟩ := hF
+    subst e1 e2 e3
+    obtain ⟨k, ck⟩ := srcSpec src hsrc s1 b1 x1 st1
+    exact ⟨k, by simp [Pay.cells, cntCells_cons, ck], by simp [cntCells_nil]⟩
   | aapp src =>
     simp only [leafOp] at r
-    refine push 9 src _ hsrc ?_ r
-    intro s1 p s2 p' hF
+    refine edit 9 _ ?_ r
+    intro s1 p s2 p' dead b1 x1 st1 hF
     cases p <;> simp at hF
-    obtain ⟨e1, e2⟩ := hF
-    subst e1 e2
-    exact ⟨rfl, fun y => by simp [Pay.cells, cntCells_append, cntCells_cons, cntCells_nil]⟩
-  | lrem i => exact absurd hsup (by simp [LeafSupS])
-  | arem i => exact absurd hsup (by simp [LeafSupS])
-  | mput k s => exact absurd hsup (by simp [LeafSupS])
-  | mrem k => exact absurd hsup (by simp [LeafSupS])
-  | sapp t => exact absurd hsup (by simp [LeafSupS])
+    obtain ⟨e1, e2, e3⟩ := hF
+    subst e1 e2 e3
+    obtain ⟨k, ck⟩ := srcSpec src hsrc s1 b1 x1 st1
+    exact ⟨k, by simp [Pay.cells, cntCells_append, cntCells_cons, cntCells_nil, ck], by simp [cntCells_nil]⟩
+  | lrem i =>
+    simp only [leafOp] at r
+    refine edit 8 _ ?_ r
+    intro s1 p s2 p' dead b1 x1 st1 hF
+    cases p <;> simp at hF
+    rename_i cs
+    cases hci : cs[i]? with
+    | none => rw [hci] at hF; cases hF
+    | some old =>
+      rw [hci] at hF
+      simp only [Option.some.injEq, Prod.mk.injEq] at hF
+      obtain ⟨e1, e2, e3⟩ := hF
+      subst e1 e2 e3
+      have := cnt_eraseIdx cs i old x hci
+      exact ⟨Keeps.refl b1 st1, by simp only [Pay.cells]; omega, by simp only [Pay.cells, cntCells_cons, cntCells_nil]; omega⟩
+  | arem i =>
+    simp only [leafOp] at r
+    refine edit 9 _ ?_ r
+    intro s1 p s2 p' dead b1 x1 st1 hF
+    cases p <;> simp at hF
+    rename_i cs
+    cases hci : cs[i]? with
+    | none => rw [hci] at hF; cases hF
+    | some old =>
+      rw [hci] at hF
+      simp only [Option.some.injEq, Prod.mk.injEq] at hF
+      obtain ⟨e1, e2, e3⟩ := hF
+      subst e1 e2 e3
+      have := cnt_eraseIdx cs i old x hci
+      exact ⟨Keeps.refl b1 st1, by simp only [Pay.cells]; omega, by simp only [Pay.cells, cntCells_cons, cntCells_nil]; omega⟩
+  | mput k src =>
+    simp only [leafOp] at r
+    refine edit 7 _ ?_ r
+    intro s1 p s2 p' dead b1 x1 st1 hF
+    cases p <;> simp at hF
+    rename_i m
+    obtain ⟨kk, ck⟩ := srcSpec src hsrc s1 b1 x1 st1
+    cases hg : mapGet m k with
+    | some old =>
+      rw [hg] at hF
+      simp only [Option.some.injEq, Prod.mk.injEq] at hF
+      obtain ⟨e1, e2, e3⟩ := hF
+      subst e1 e2 e3
+      have := cnt_mapPut m k (srcCopy rd s1 src).2 old x hg
+      exact ⟨kk, by simp only [Pay.cells]; omega, by simp only [Pay.cells, cntCells_cons, cntCells_nil]; omega⟩
+    | none =>
+      rw [hg] at hF
+      simp only [Option.some.injEq, Prod.mk.injEq] at hF
+      obtain ⟨e1, e2, e3⟩ := hF
+      subst e1 e2 e3
+      exact ⟨kk, by simp [Pay.cells, cntCells_append, cntCells_cons, cntCells_nil, ck], by simp [cntCells_nil]⟩
+  | mrem k =>
+    simp only [leafOp] at r
+    refine edit 7 _ ?_ r
+    intro s1 p s2 p' dead b1 x1 st1 hF
+    cases p <;> simp at hF
+    rename_i m
+    obtain ⟨e1, e2, e3⟩ := hF
+    subst e1 e2 e3
+    have := cnt_mapDel m k x
+    cases hg : mapGet m k with
+    | none =>
+      simp only [hg, cntCells_nil] at this ⊢
+      exact ⟨Keeps.refl b1 st1, by simp only [Pay.cells]; omega, by omega⟩
+    | some old =>
+      simp only [hg] at this ⊢
+      exact ⟨Keeps.refl b1 st1, by simp only [Pay.cells]; omega, by simp only [Pay.cells]; omega⟩
+  | sapp t =>
+    simp only [leafOp] at r
+    refine edit 10 _ ?_ r
+    intro s1 p s2 p' dead b1 x1 st1 hF
+    cases p <;> simp at hF
+    obtain ⟨e1, e2, e3⟩ := hF
+    subst e1 e2 e3
+    exact ⟨Keeps.refl b1 st1, by simp [Pay.cells, cntCells_nil], by simp [cntCells_nil]⟩
 
 end Nstd.Variant.Deep
